@@ -232,6 +232,13 @@ def tree_of(spec):
     return make_tree(spec)
 
 
+def by_name(table, name):
+    """the edit set of the entry with that name (parse_file edits are shared by both plug-ins)"""
+    hit = [e[1] for e in table if e[0] == name]
+    assert len(hit) == 1, name
+    return dict(hit[0])
+
+
 A64_LOCALS = [("shift_op", "shift_operator"), ("condition", "cond_codes"), ("alias_r31_sp", "sp_alias"),
               ("alias_r31_zr", "zr_alias"), ("vector", "vec_reg"), ("scalar", "gp_or_fp_reg"), ("predicate", "pred_reg"),
               ("register_list", "reg_list"), ("register", "any_register"), ("immediate", "imm"),
@@ -405,8 +412,8 @@ HARMLESS_X86 = [
         sub('result = self.process_operand(self.comment.parseString(line, parseAll=True).asDict())',
             'parsed = self.comment.parse_string(line, parse_all=True)\n            result = self.process_operand(parsed.asDict())'),
         sub('self.label.parseString(line, parseAll=True)', 'self.label.parseString(line, True)')))}),
-    ("parse_file: enumerate from 1, truthiness blank test, hoisted number", dict(HARMLESS_A64[10][1])),
-    ("parse_file: positive test instead of continue, lines not bound to a local", dict(HARMLESS_A64[11][1])),
+    ("parse_file: enumerate from 1, truthiness blank test, hoisted number", by_name(HARMLESS_A64, "parse_file: enumerate from 1, truthiness blank test, hoisted number")),
+    ("parse_file: positive test instead of continue, lines not bound to a local", by_name(HARMLESS_A64, "parse_file: positive test instead of continue, lines not bound to a local")),
 ]
 
 NUMBERS_OLD = '''        decimal_number = pp.Combine(
@@ -440,6 +447,26 @@ HARMLESS_X86.append(("process_memory_address: .get(k) without default / conditio
         sub('offset = memory_address.get("offset", None)', 'offset = memory_address.get("offset")'),
         sub('base = memory_address.get("base", None)', 'base = memory_address["base"] if "base" in memory_address else None')))}))
 
+HARMLESS_A64.append(("alias regexes respelt: [A-Za-z], raw string, inner group dropped (grammar dump differs in the pattern text only)", {A64: chain(
+    sub('pp.Regex("(?P<prefix>[a-zA-Z])?(?P<name>(sp|SP))")', 'pp.Regex(r"(?P<prefix>[A-Za-z])?(?P<name>sp|SP)")'),
+    sub('pp.Regex("(?P<prefix>[a-zA-Z])?(?P<name>(zr|ZR))")', 'pp.Regex("(?P<prefix>[A-Za-z])?" "(?P<name>(zr|ZR))")'))}, "nodump"))
+INDEX_LOOP = {BASE: within("parse_file", chain(
+    sub('for i, line in enumerate(lines):', 'for i in range(len(lines)):\n            line = lines[i]')))}
+HARMLESS_A64.append(("parse_file: index loop over range(len(lines))", INDEX_LOOP))
+HARMLESS_X86.append(("parse_file: index loop over range(len(lines))", INDEX_LOOP))
+HARMLESS_A64.append(("character classes spelt differently (alphas + nums, digits spelt out)", {A64: chain(
+    sub('mnemonic = pp.Word(pp.alphanums + ".")', 'mnemonic = pp.Word(pp.alphas + pp.nums + ".")'),
+    sub('scalar = pp.Word("xwbhsdqXWBHSDQ", exact=1).setResultsName("prefix") + pp.Word(\n            pp.nums\n        )',
+        'scalar = pp.Word("xwbhsdqXWBHSDQ", exact=1).setResultsName("prefix") + pp.Word(\n            "0123456789"\n        )'),
+    sub('word_end = pp.WordEnd(pp.alphanums + "_.")', 'word_end = pp.WordEnd("_" + pp.alphanums + ".")'))}))
+HARMLESS_A64.append(("alias tests with truthiness / .get instead of `is not None and \"name\" in`", {A64: within("process_memory_address", chain(
+    sub('if base is not None and "name" in base and base["name"].lower() == "sp":', 'if base and base.get("name", "").lower() == "sp":'),
+    sub('if index is not None and "name" in index and index["name"].lower() == "zr":', 'if index and "name" in index and "zr" == index["name"].lower():')))}))
+HARMLESS_X86.append(("character classes spelt differently (alphas + nums, digits spelt out)", {X86: chain(
+    sub('            + pp.Word(pp.alphanums + "_").setResultsName("name")\n            + pp.ZeroOrMore(directive_parameter)',
+        '            + pp.Word(pp.alphas + pp.nums + "_").setResultsName("name")\n            + pp.ZeroOrMore(directive_parameter)'),
+    sub('pp.Optional(pp.Literal("(") + pp.Word(pp.nums) + pp.Literal(")"))', 'pp.Optional(pp.Literal("(") + pp.Word("0123456789") + pp.Literal(")"))'))}))
+
 REAL_A64 = [
     ("comment symbol // -> ;", {A64: sub('symbol_comment = "//"', 'symbol_comment = ";"')}),
     ("shift op ror dropped", {A64: sub('            ^ pp.CaselessLiteral("ror")\n', '')}),
@@ -448,6 +475,8 @@ REAL_A64 = [
     ("lane digits 12468 -> 1248 in vector", {A64: sub('pp.Word("12468")', 'pp.Word("1248")', 0)}),
     ("lane digits changed only in predicate", {A64: rx(r'(pp\.CaselessLiteral\("p"\).*?)pp\.Word\("12468"\)', r'\1pp.Word("1248")', flags=re.S)}),
     ("alias regex (sp|SP) -> (sp)", {A64: sub('(?P<name>(sp|SP))', '(?P<name>(sp))')}),
+    ("alias regex (sp|SP) -> (sp|Sp)", {A64: sub('(?P<name>(sp|SP))', '(?P<name>(sp|Sp))')}),
+    ("alias regex made case-insensitive by an inline flag", {A64: sub('"(?P<prefix>[a-zA-Z])?(?P<name>(sp|SP))"', '"(?i)(?P<prefix>[a-zA-Z])?(?P<name>(sp|SP))"')}),
     ("alias regex character class [a-zA-Z] -> [a-z]", {A64: sub('pp.Regex("(?P<prefix>[a-zA-Z])?(?P<name>(zr|ZR))")', 'pp.Regex("(?P<prefix>[a-z])?(?P<name>(zr|ZR))")')}),
     ("scalar prefix exact=1 -> exact=2", {A64: sub('pp.Word("xwbhsdqXWBHSDQ", exact=1)', 'pp.Word("xwbhsdqXWBHSDQ", exact=2)')}),
     ("scalar prefix set loses q", {A64: sub('"xwbhsdqXWBHSDQ"', '"xwbhsdXWBHSD"')}),
@@ -533,14 +562,14 @@ REAL_X86 = [
     ("MemoryOperand(base=indexOp, index=baseOp)", {X86: sub('base=baseOp, index=indexOp', 'base=indexOp, index=baseOp')}),
     ("base register named by its prefix", {X86: sub('name=base["name"], prefix=base["prefix"]', 'name=base["prefix"], prefix=base["prefix"]')}),
     ("offset key renamed", {X86: sub('offset = memory_address.get("offset", None)', 'offset = memory_address.get("displacement", None)')}),
-    ("line number i + 1 -> i + 2", dict(REAL_A64[30][1])),
-    ("line number ignores start_line", dict(REAL_A64[31][1])),
+    ("line number i + 1 -> i + 2", by_name(REAL_A64, "line number i + 1 -> i + 2")),
+    ("line number ignores start_line", by_name(REAL_A64, "line number ignores start_line")),
     ("blank test lstrip", {BASE: sub('if line.strip() == "":', 'if line.lstrip() == "":')}),
-    ("blank test inverted", dict(REAL_A64[33][1])),
-    ("split at \\r\\n", dict(REAL_A64[34][1])),
-    ("enumerate from 1 without adjusting the number", dict(REAL_A64[35][1])),
-    ("blank lines filtered before enumerating (comprehension)", dict(REAL_A64[36][1])),
-    ("comprehension form that parses the stripped line", dict(REAL_A64[37][1])),
+    ("blank test inverted", by_name(REAL_A64, "blank test inverted")),
+    ("split at \\r\\n", by_name(REAL_A64, "split at \\r\\n")),
+    ("enumerate from 1 without adjusting the number", by_name(REAL_A64, "enumerate from 1 without adjusting the number")),
+    ("blank lines filtered before enumerating (comprehension)", by_name(REAL_A64, "blank lines filtered before enumerating (comprehension)")),
+    ("comprehension form that parses the stripped line", by_name(REAL_A64, "comprehension form that parses the stripped line")),
 ]
 
 
@@ -573,7 +602,9 @@ def main():
     counts = {}
     for gen, harmless, real in (("A64Grammar", HARMLESS_A64, REAL_A64), ("X86Parser", HARMLESS_X86, REAL_X86)):
         n_h = n_r = 0
-        for name, spec in harmless:
+        for entry in harmless:
+            name, spec = entry[0], entry[1]
+            opts = entry[2:]
             try:
                 tree = tree_of(spec)
             except AssertionError as e:
@@ -585,6 +616,8 @@ def main():
             why = "" if ok else (" -- plug-in failed: " + text if st != "ok" else " -- output differs")
             if PROBE:
                 pr = probe(tree)
+                if "nodump" in opts:
+                    pr = {k: (base_probe[k] if k.startswith("Parser") else v) for k, v in pr.items()}
                 if "error" in pr or relevant(pr, gen) != relevant(base_probe, gen):
                     ok = False
                     why += " -- NOT HARMLESS: " + (pr.get("error") or "probe differs in %s" % [k for k in relevant(pr, gen) if pr[k] != base_probe.get(k)])
